@@ -305,7 +305,6 @@ theorem c04_counters_stay_in_range (k : IntKind) (hk : k ∈ IntKind.all) (s : C
   have hw := IntKind.all_wf k hk
   refine ⟨fun c => ctuStep_range k hw s c hs, fun c hpv => ctdStep_range k hw s c hpv hs, ?_⟩
   intro c hpv
-  have hinv : CtudInv k s [] → True := fun _ => trivial
   -- one step from any in-range state: unfold and split
   obtain ⟨k0, k1, k2⟩ := hw
   simp only [ctudStep, k.floor_eq ⟨k0, k1, k2⟩]
@@ -346,7 +345,7 @@ theorem c04_trig_oneshot (tr : List Bool) (c1 c2 : Bool) :
     ¬ (Spec.rtrig (tr ++ [c1]) = true ∧ Spec.rtrig (tr ++ [c1, c2]) = true) ∧
       ¬ (Spec.ftrig (tr ++ [c1]) = true ∧ Spec.ftrig (tr ++ [c1, c2]) = true) := by
   simp only [Spec.rtrig, Spec.ftrig, List.reverse_append, List.reverse_cons, List.reverse_nil,
-    List.nil_append, List.singleton_append, List.cons_append, Spec.rtrigR, Spec.ftrigR, List.headD_cons]
+    List.nil_append, List.cons_append, Spec.rtrigR, Spec.ftrigR, List.headD_cons]
   cases c1 <;> cases c2 <;> simp
 
 /-- **Exactly one call per edge**: R_TRIG fires at a call iff CLK is TRUE there and was FALSE at the
